@@ -393,7 +393,7 @@ pub fn prop() -> DiceProp {
         build,
         fixed,
         classify,
-        rule: "pairs (friendly module, `#[no_implicit_prelude]` hostile module with a shadow set) of (A) items from the C01 generator (all 50 derives x shapes x generics x documented attributes) and (B) 26 behaviour templates per derive family (incl. container-level `#[debug(\"..\")]` formats and non-wrapping shared Display formats) x 8 shadow sets (none = pure no-prelude; a local trait offering `to_lowercase`/`as_str`/`write_str`/`default` for every type; local types Result/Option/String/Vec/Box; local fns/consts Ok/Err/Some/None; local traits Debug/Display/From/...; local macro_rules panic/write/format_args/matches/stringify/... that turn a capture into a compile error; silently capturing macros; glob-imported enum variants named Ok/Err/Some/None); oracle: the hostile copy compiles whenever the friendly one does and the driver's observation string (formatting results, panics, error texts, sources, parses) is identical in both; non-trivial = every case (the hostile scope always lacks the prelude); distinct by program text".into(),
+        rule: "pairs (friendly module, `#[no_implicit_prelude]` hostile module with a shadow set) of (A) items from the C01 generator (all 50 derives x shapes x generics x documented attributes) and (B) 26 behaviour templates per derive family (incl. container-level `#[debug(\"..\")]` formats and non-wrapping shared Display formats) x 8 shadow sets (none = pure no-prelude; a local trait offering `to_lowercase`/`as_str`/`write_str`/`default` for every type; local types Result/Option/String/Vec/Box; local fns/consts Ok/Err/Some/None; local traits Debug/Display/From/...; local macro_rules panic/write/format_args/matches/stringify/... that turn a capture into a compile error; silently capturing macros; glob-imported enum variants named Ok/Err/Some/None); oracle: the hostile copy compiles whenever the friendly one does and the driver's observation string (formatting results, panics, error texts, sources, parses) is identical in both; non-trivial = every case (the hostile scope always lacks the prelude); distinct by program text; plus a real #![no_std] lib crate (46 core-only items covering all 50 derives, `extern crate alloc` declared) checked by cargo with derive_more's std feature off and on: every item must compile".into(),
         assumptions: vec!["user tokens of the generated items are written with absolute paths in the hostile module (token-level rewrite), so only tokens produced by the expansion can depend on the scope".into()],
         // behaviour templates are a fixed set of 22 x 7 programs (all of them run in round 0), so their share shrinks with the tier
         floors: vec![("kind=behaviour".into(), 0.003), ("shadow=method_traits".into(), 0.06), ("template=Debug_container_format".into(), 0.0002), ("shadow=macros".into(), 0.08), ("shadow=none".into(), 0.08), ("shadow=types".into(), 0.08), ("shadow=values".into(), 0.08), ("shadow=traits".into(), 0.08)],
@@ -401,8 +401,153 @@ pub fn prop() -> DiceProp {
     }
 }
 
+
+// ------------------------------------------------------------------------------------------------
+// a real `#![no_std]` crate (the quantifier names `no_std` next to `#[no_implicit_prelude]`): every derive on
+// core-only item shapes, checked by cargo with derive_more's `std` feature off and on. In such a crate the names `std`
+// and the std prelude do not exist at all, so an expansion that says `::std::..` or relies on a std-only prelude item
+// fails to resolve. (`extern crate alloc` is declared: FromStr on enums lower-cases through alloc's `str::to_lowercase`.)
+
+const NO_STD_SUPPORT: &str = "#[derive(Debug)] pub struct Inner;\nimpl core::fmt::Display for Inner { fn fmt(&self, f: &mut core::fmt::Formatter<'_>) -> core::fmt::Result { f.write_str(\"inner\") } }\nimpl core::error::Error for Inner {}\n";
+
+/// (derive list, item); `core::fmt::Debug` is derived by std's own derive where `Error` needs it
+const NO_STD_ITEMS: [(&str, &str); 46] = [
+    ("Add, Sub, BitAnd, BitOr, BitXor, Not, Neg, Sum", "pub struct S(pub i32, pub i32);"),
+    ("Mul, Div, Rem, Shr, Shl", "pub struct S(pub i32);"),
+    ("Mul, Product", "#[mul(forward)] pub struct S(pub i32);"),
+    ("AddAssign, SubAssign, BitAndAssign, BitOrAssign, BitXorAssign, MulAssign, DivAssign, RemAssign, ShrAssign, ShlAssign", "pub struct S(pub i32);"),
+    ("Add, Sub, Not, Neg", "pub enum E { A(i32), B { x: i32 }, U }"),
+    ("Add, Mul, Not, Sum, AddAssign", "pub struct S<T>(pub T);"),
+    ("Add, Not", "pub enum E<T> { A(T), B { x: T } }"),
+    ("From", "pub struct S(pub i32, pub u8);"),
+    ("From", "#[from(forward)] pub struct S(pub i64);"),
+    ("From", "#[from(i8, i16)] pub struct S(pub i32);"),
+    ("From", "pub enum E { A(i32), #[from(forward)] B { x: i64 }, #[from(skip)] C(i32), U }"),
+    ("From", "pub struct S<T>(pub T, pub u8);"),
+    ("Into", "#[into(owned, ref, ref_mut)] pub struct S(pub i32, pub u8);"),
+    ("Into", "#[into(i64, i128)] pub struct S(pub i32);"),
+    ("Into", "pub struct S<T> { pub a: [T; 2], #[into(skip)] pub b: u8 }"),
+    ("Constructor", "pub struct S<T> { pub a: T, pub b: u8 }"),
+    ("Display", "#[display(\"{a}-{b:?}\")] pub struct S { pub a: i32, pub b: u8 }"),
+    ("Display", "#[display(\"<{_variant}>\")] pub enum E { A(i32), #[display(\"u\")] U, #[display(\"{x:>4}\")] N { x: u8 } }"),
+    ("Display", "#[display(rename_all = \"snake_case\")] pub enum E { FooBar, Baz }"),
+    ("Display", "#[display(\"{_0} {}\", _1.len())] pub struct S<T>(pub T, pub &'static str);"),
+    ("Display, Binary, Octal, LowerHex, UpperHex, LowerExp, UpperExp", "pub struct S(pub i32);"),
+    ("Pointer", "pub struct S(pub &'static i32);"),
+    ("Pointer", "#[pointer(\"{a:p}\")] pub struct S { pub a: &'static i32 }"),
+    ("Debug", "pub struct S { pub a: i32, #[debug(skip)] pub b: u8, #[debug(\"{:x}\", c)] pub c: u8 }"),
+    ("Debug", "pub struct S(pub i32, #[debug(skip)] pub u8);"),
+    ("Debug", "pub enum E<T> { A(T), #[debug(\"b{x}\")] B { x: u8 }, U }"),
+    ("FromStr", "pub struct S(pub i32);"),
+    ("FromStr", "pub enum E { Foo, Bar, foo }"),
+    ("AsRef, AsMut", "pub struct S(pub i32);"),
+    ("AsRef, AsMut", "#[as_ref(forward)] #[as_mut(forward)] pub struct S(pub [u8; 4]);"),
+    ("AsRef, AsMut", "pub struct S(#[as_ref([u8])] #[as_mut([u8])] pub [u8; 4], pub u8);"),
+    ("AsRef", "pub struct S<T>(#[as_ref(T)] pub T);"),
+    ("Deref, DerefMut", "pub struct S<T>(pub T);"),
+    ("Deref, DerefMut", "#[deref(forward)] #[deref_mut(forward)] pub struct S(pub &'static mut i32);"),
+    ("Index, IndexMut", "pub struct S(pub [i32; 4], #[index(ignore)] #[index_mut(ignore)] pub u8);"),
+    ("IntoIterator", "pub struct S(#[into_iterator(owned, ref, ref_mut)] pub [i32; 4]);"),
+    ("IsVariant, Unwrap, TryUnwrap", "#[unwrap(ref, ref_mut)] #[try_unwrap(ref, ref_mut)] pub enum E<T> { A(T), B(u8, i32), U }"),
+    ("TryInto", "#[try_into(owned, ref, ref_mut)] pub enum E { A(i32), B(u8, u16), #[try_into(ignore)] C(i32), U }"),
+    ("TryFrom", "#[try_from(repr)] #[repr(u8)] pub enum E { A = 1, B, C = 7 }"),
+    ("TryFrom", "#[try_from(repr)] pub enum E<T> { A, B(T) }"),
+    ("@Debug, Display, Error", "#[display(\"e\")] pub struct S { pub source: Inner }"),
+    ("@Debug, Display, Error", "#[display(\"e\")] pub struct S(pub Inner, pub u8);"),
+    ("@Debug, Display, Error", "#[display(\"e\")] pub struct S<E> { pub source: E }"),
+    ("@Debug, Display, Error", "#[display(\"e\")] pub enum Either<L, R> { A { source: L }, B(#[error(source)] R, u8), #[error(ignore)] C(Inner), U }"),
+    ("@Debug, Display, Error", "#[display(\"e\")] pub struct S(#[error(not(source))] pub Inner);"),
+    ("@Debug, Display, Error", "#[display(\"e\")] pub struct S;"),
+];
+
+fn no_std_stage(ctx: &Ctx, rep: &mut Report) {
+    let dir = ctx.work_dir.join("gen").join("gen_c15_nostd");
+    if let Err(e) = std::fs::create_dir_all(dir.join("src")) {
+        rep.infra_errors.push(format!("no_std stage: {e}"));
+        return;
+    }
+    let mut src = String::from("#![no_std]\n#![allow(dead_code, non_camel_case_types)]\nextern crate alloc;\n");
+    let mut ranges: Vec<(usize, usize, usize)> = vec![];
+    for (i, (derives, item)) in NO_STD_ITEMS.iter().enumerate() {
+        let list: Vec<String> = derives.split(", ").map(|d| if let Some(stdd) = d.strip_prefix('@') { format!("core::fmt::{stdd}") } else { format!("derive_more::{d}") }).collect();
+        let m = format!("pub mod c{i} {{\n{NO_STD_SUPPORT}#[derive({})]\n{item}\n}}\n", list.join(", "));
+        let first = src.matches('\n').count() + 1;
+        src.push_str(&m);
+        ranges.push((i, first, src.matches('\n').count()));
+    }
+    if std::fs::write(dir.join("src/lib.rs"), &src).is_err() {
+        rep.infra_errors.push("no_std stage: cannot write the crate".into());
+        return;
+    }
+    let _ = std::fs::copy(ctx.mirror.join("Cargo.lock"), dir.join("Cargo.lock"));
+    for (cfg, feats) in [("std feature off", "\"full\""), ("std feature on", "\"full\", \"std\"")] {
+        let toml = format!(
+            "[package]\nname = \"gen_c15_nostd\"\nversion = \"0.0.0\"\nedition = \"2021\"\n\n[workspace]\n\n[dependencies]\nderive_more = {{ path = \"{}\", default-features = false, features = [{feats}] }}\n",
+            ctx.mirror.display()
+        );
+        if std::fs::write(dir.join("Cargo.toml"), toml).is_err() {
+            rep.infra_errors.push("no_std stage: cannot write Cargo.toml".into());
+            return;
+        }
+        let out = std::process::Command::new("cargo")
+            .args(["check", "--offline", "--lib", "--message-format=short"])
+            .current_dir(&dir)
+            .env("CARGO_NET_OFFLINE", "true")
+            .env("CARGO_TARGET_DIR", ctx.work_dir.join("tgt-gen-nostd"))
+            .output();
+        let out = match out {
+            Ok(o) => o,
+            Err(e) => {
+                rep.infra_errors.push(format!("no_std stage: cargo: {e}"));
+                return;
+            }
+        };
+        let text = String::from_utf8_lossy(&out.stderr).to_string();
+        let mut per_case: std::collections::BTreeMap<usize, Vec<String>> = Default::default();
+        let mut unattributed = vec![];
+        for l in text.lines() {
+            // `src/lib.rs:LINE:COL: error[E0433]: message`
+            let Some(rest) = l.strip_prefix("src/lib.rs:") else {
+                if l.starts_with("error") && !l.starts_with("error: could not compile") {
+                    unattributed.push(l.to_string());
+                }
+                continue;
+            };
+            let mut it = rest.splitn(3, ':');
+            let line: usize = it.next().and_then(|x| x.parse().ok()).unwrap_or(0);
+            let _col = it.next();
+            let msg = it.next().unwrap_or("").trim();
+            if !msg.starts_with("error") {
+                continue;
+            }
+            match ranges.iter().find(|r| r.1 <= line && line <= r.2) {
+                Some(r) => per_case.entry(r.0).or_default().push(msg.to_string()),
+                None => unattributed.push(l.to_string()),
+            }
+        }
+        for (i, errs) in &per_case {
+            let (derives, item) = NO_STD_ITEMS[*i];
+            rep.violations.push(Violation {
+                sig: None,
+                summary: format!("derive does not compile in a real #![no_std] crate ({cfg}): #[derive({})] {item}", derives.replace('@', "core::fmt::")),
+                case: json!({"no_std_item": i, "derives": derives, "item": item, "config": cfg}),
+                expected: "compiles as it does in a std crate".into(),
+                observed: errs.join(" | ").chars().take(1500).collect(),
+            });
+        }
+        if !out.status.success() && per_case.is_empty() {
+            rep.infra_errors.push(format!("no_std stage ({cfg}): build failed without an attributable error: {}", unattributed.join(" | ").chars().take(800).collect::<String>()));
+        }
+        rep.evidence.eval(NO_STD_ITEMS.len() as u64);
+        for _ in 0..NO_STD_ITEMS.len() {
+            rep.evidence.label("no_std_crate_item");
+        }
+    }
+}
+
 pub fn run(ctx: &Ctx) -> Report {
     let mut rep = super::progprop::run(&prop(), ctx);
+    no_std_stage(ctx, &mut rep);
     let nightly_ok = std::process::Command::new("rustc").arg("+nightly").arg("--version").output().map(|o| o.status.success()).unwrap_or(false);
     if nightly_ok {
         let r2 = super::progprop::run(&prop_nightly(), ctx);
@@ -416,6 +561,13 @@ pub fn run(ctx: &Ctx) -> Report {
 }
 
 pub fn replay(ctx: &Ctx, case: &serde_json::Value) -> Report {
+    if case.get("no_std_item").is_some() {
+        // the no_std crate is small: rebuild it and keep what concerns the replayed item
+        let mut rep = Report::new("replay of an item of the #![no_std] crate stage");
+        no_std_stage(ctx, &mut rep);
+        rep.violations.retain(|v| v.case["no_std_item"] == case["no_std_item"] && v.case["config"] == case["config"]);
+        return rep;
+    }
     if case["meta"]["nightly"].as_bool() == Some(true) {
         return super::progprop::replay(&prop_nightly(), ctx, case);
     }
